@@ -23,7 +23,8 @@ reject), every optional normalisation (however wrong), every `1 ≤ P ≤ B ≤ 
   arithmetic everything rests on, as theorems about the executable rounding function.
 
 What ties the software model to the hardware floats of the crate: the driver answers every
-`quant.fast` / `quant.lazy` protocol line with the software model *and* with the native replica
+`quant.fast` / `quant.lazy` protocol line (and the `g` values of every `quant.leaky` line) with the
+software model *and* with the native replica
 and reports any difference (`CV/Driver/Quant.lean`), so the correspondence run compares the
 crate's `f32`/`f64` arithmetic with `SoftFloat` bit for bit on every sampled table; the model's
 single-operation agreement with native floats is additionally sampled by `sf.ops` lines.
